@@ -209,9 +209,11 @@ Theorem c16_sort_headers :
 Proof. exact sort_headers_envelope. Qed.
 Print Assumptions c16_sort_headers.
 
-(* independence of the iteration order holds for every input, inside the envelope or not *)
+(* independence of the iteration order holds for every input, inside the envelope or not; the map Go
+   ranges over is filled from the entries sortTarHeaders keeps (since fix f716198: all but an entry that
+   cleans to ".") *)
 Theorem c16_sort_headers_order_independent :
-  forall hs ord, Permutation.Permutation ord (map fst (dir_children hs)) -> sort_headers_ord ord hs = sort_headers hs.
+  forall hs ord, Permutation.Permutation ord (map fst (dir_children (filter not_dot hs))) -> sort_headers_ord ord hs = sort_headers hs.
 Proof. exact (fun hs ord => sort_headers_ord_indep ord hs). Qed.
 Print Assumptions c16_sort_headers_order_independent.
 
@@ -323,12 +325,13 @@ Theorem c16_installed_validator_decides : forall p files rb,
 Proof. exact installed_validator_decides. Qed.
 Print Assumptions c16_installed_validator_decides.
 
-(* each condition of [sort_envelope] is needed: model witnesses for "./" (the
-   recursion does not end: finding C15-F4), a childless top-level entry and an
+(* each condition of [sort_envelope] is needed: model witnesses for "./" (left out of the
+   result since fix f716198, so the result is no permutation of the input; before the fix the
+   recursion did not end, finding C15-F4: [sort_headers_raw], hypothetical), a childless top-level entry and an
    orphan (C16-F5), a directory named twice (C16-F7), and a non-directory name
    ending in "/." (written as R:. — no file can be called that) *)
 Theorem c16_sort_envelope_needed :
-  sort_headers [mkHdr "./" true 493 0 0 ""] = OutOfFuel /\
+  (sort_headers [mkHdr "./" true 493 0 0 ""] = Ok [] /\ sort_headers_raw [mkHdr "./" true 493 0 0 ""] = OutOfFuel) /\
   sort_headers [mkHdr "dev/" true 493 0 0 ""; mkHdr "usr/" true 493 0 0 ""; mkHdr "usr/bin/" true 493 0 0 ""] =
     Ok [mkHdr "usr/" true 493 0 0 ""; mkHdr "usr/bin/" true 493 0 0 ""] /\
   sort_headers [mkHdr "usr/" true 493 0 0 ""; mkHdr "usr/bin/ls" false 420 0 0 ""; mkHdr "usr/lib/" true 493 0 0 ""] =
